@@ -10,6 +10,7 @@ Not decided: 'never raises one above its demand schedule' (non-linear relational
 from __future__ import annotations
 
 import ast
+from fractions import Fraction
 
 from .core import AnalysisError, loc, norm_src, walk_no_nested, dotted, str_const, Inliner
 from .symx import Interp, Obj, Path, PList, PDict, Unsupported, explore, Abort, Opaque
@@ -132,6 +133,13 @@ def _branch_means_pf_greater(key, val):
     greater = op in (">", ">=")
     pf_minus_t_positive = greater if pos_pf else (not greater)
     return pf_minus_t_positive if val else (not pf_minus_t_positive)
+
+
+def _overlap(a, b):
+    """can one number satisfy both `x a.op a.bound` and `x b.op b.bound`?"""
+    from .rat import feasible
+    x = Rat.atom(("x",))
+    return feasible([(x - Rat.const(Fraction(a[1]).limit_denominator(10**9)), a[0]), (x - Rat.const(Fraction(b[1]).limit_denominator(10**9)), b[0])])
 
 
 def _neg_op(op):
@@ -325,16 +333,32 @@ def retime(index, rep):
                   loc=loc(PARAMS, fn), detail=str(res))
     filled = [norm_src(s.targets[0]) for s in walk_no_nested(fn) if isinstance(s, ast.Assign) and isinstance(s.value, ast.Call)
               and dotted(s.value.func) == "self.fill_negatives_with_positives"]
+    from .core import bounds_in
     asserts0 = [norm_src(a.test) for a in walk_no_nested(fn) if isinstance(a, ast.Assert)]
-    okf = len(filled) == 1 and any(f"{filled[0]} >= -0.001" in a.replace("-0.0010", "-0.001") and ("all" in a) for a in asserts0)
+    all_bounds = [b for a in walk_no_nested(fn) if isinstance(a, ast.Assert) for b in bounds_in(a.test)]
+    okf = len(filled) == 1 and any(k == "lower" and -0.001 <= v <= 0 and norm_src(e_) == filled[0] for k, e_, v, strict in all_bounds)
     rep.check(okf, rule, "assert:filled-difference-non-negative",
               "the run-time assertion `filled difference >= -0.001` is gone (month-by-month dominance over round 1 is no longer enforced)",
               loc=loc(PARAMS, fn), detail=" ; ".join(asserts0)[:300])
     # the two other assertions (total preserved; result non-negative), by their canonical content
-    asserts = [norm_src(a.test) for a in walk_no_nested(fn) if isinstance(a, ast.Assert)]
-    rep.check(any("abs(" in a and ".sum()" in a and "<= 0.001" in a for a in asserts), rule, "assert:total-preserved",
-              "the assertion that the adjustment sums to zero (total meat preserved) is gone", loc=loc(PARAMS, fn))
-    rep.check(any("+ round_2_meat_kcals >= -0.001" in a or "round_2_meat_kcals +" in a and ">= -0.001" in a for a in asserts), rule,
+    inl_r = Inliner(fn)
+
+    def summands(e):
+        e = inl_r.expr(e)
+        out, work = [], [e]
+        while work:
+            x = work.pop()
+            if isinstance(x, ast.BinOp) and isinstance(x.op, ast.Add):
+                work += [x.left, x.right]
+            else:
+                out.append(norm_src(x))
+        return sorted(out)
+
+    rets_r = [r for r in walk_no_nested(fn) if isinstance(r, ast.Return) and r.value is not None and not (isinstance(r.value, ast.Constant) and r.value.value is None)]
+    ret_terms = summands(rets_r[-1].value) if rets_r else None
+    rep.check(any(k == "upper" and 0 <= v <= 0.001 and "abs(" in norm_src(e_) and ".sum()" in norm_src(e_) for k, e_, v, strict in all_bounds), rule,
+              "assert:total-preserved", "the assertion that the adjustment sums to zero (total meat preserved) is gone", loc=loc(PARAMS, fn))
+    rep.check(ret_terms is not None and any(k == "lower" and -0.001 <= v <= 0 and summands(e_) == ret_terms for k, e_, v, strict in all_bounds), rule,
               "assert:result-non-negative", "the assertion that the re-timed meat is non-negative is gone", loc=loc(PARAMS, fn))
     # the None path is the 'less meat with feed' case: only when sum(round1) > sum(round2)
     rep.check(len(nulls) >= 1, rule, "skip-path-exists", "no path skips round 2 when feeding yields less meat", loc=loc(PARAMS, fn))
@@ -388,8 +412,57 @@ def retime(index, rep):
         raise AnalysisError("fill_negatives_with_positives: expected the transfers in a donor loop nested in a deficit loop")
     inl_f = Inliner(f)
     outer_iter = inl_f.src(outer.iter).replace(" ", "")
-    deficits_only = outer_iter in (f"np.where({arr}<0)[0]", f"np.nonzero({arr}<0)[0]", f"np.flatnonzero({arr}<0)")
     I, J, R, D = (Rat.atom((n_,)) for n_ in ("I", "J", "R", "D"))
+
+    def index_set(e):
+        """`np.where(P(arr))[0]` (also np.nonzero / np.flatnonzero, reversed or sliced [::-1]) -> (op, bound): the entries it selects
+        satisfy `entry op bound`; None if the expression is not such a selection"""
+        e = inl_f.expr(e)
+        while True:
+            if isinstance(e, ast.Call) and dotted(e.func) in ("reversed", "list", "np.flip", "np.array", "sorted") and len(e.args) == 1:
+                e = e.args[0]
+            elif isinstance(e, ast.Subscript) and isinstance(e.slice, ast.Slice):
+                e = e.value
+            else:
+                break
+        if isinstance(e, ast.Subscript) and isinstance(e.slice, ast.Constant) and e.slice.value == 0 and isinstance(e.value, ast.Call) \
+                and dotted(e.value.func) in ("np.where", "np.nonzero") and len(e.value.args) == 1:
+            p_ = e.value.args[0]
+        elif isinstance(e, ast.Call) and dotted(e.func) == "np.flatnonzero" and len(e.args) == 1:
+            p_ = e.args[0]
+        else:
+            return None
+        neg = False
+        while isinstance(p_, ast.UnaryOp) and isinstance(p_.op, (ast.Invert, ast.Not)):
+            neg, p_ = not neg, p_.operand
+        if not (isinstance(p_, ast.Compare) and len(p_.ops) == 1):
+            return None
+        ops = {ast.Lt: "<", ast.LtE: "<=", ast.Gt: ">", ast.GtE: ">="}
+        flip = {"<": ">", "<=": ">=", ">": "<", ">=": "<="}
+        op = ops.get(type(p_.ops[0]))
+        l_, r_ = p_.left, p_.comparators[0]
+        if op is None:
+            return None
+        if norm_src(l_) == arr:
+            pass
+        elif norm_src(r_) == arr:
+            l_, r_, op = r_, l_, flip[op]
+        else:
+            return None
+        try:
+            bound = float(ast.literal_eval(r_))
+        except Exception:
+            return None
+        if neg:
+            op = _neg_op(op)
+        return op, bound
+
+    outer_sel = index_set(outer.iter)
+    inner_sel = index_set(inner.iter)
+    deficits_only = outer_sel is not None and outer_sel[0] == "<" and outer_sel[1] == 0
+    # statements that only compute such a selection are not executed (the selection is read from the loop header instead)
+    selection_stmts = {id(s_) for s_ in walk_no_nested(f) if isinstance(s_, ast.Assign) and any(
+        isinstance(c_, ast.Call) and dotted(c_.func) in ("np.where", "np.nonzero", "np.flatnonzero") for c_ in ast.walk(s_.value))}
 
     def run_step(it):
         def hook(interp, d, a, kw, node):
@@ -400,7 +473,7 @@ def retime(index, rep):
         env = {arr: PDict({it.dkey(I, None): R, it.dkey(J, None): D}), outer.target.id: I, inner.target.id: J}
         how = "end"
         try:
-            it.exec_block([s_ for s_ in outer.body if s_ is not inner and s_.lineno < inner.lineno], env)
+            it.exec_block([s_ for s_ in outer.body if s_ is not inner and s_.lineno < inner.lineno and id(s_) not in selection_stmts], env)
             it.exec_block(inner.body, env)
         except _Continue:
             how = "continue"
@@ -435,6 +508,10 @@ def retime(index, rep):
         cons = [(it.pred_exprs[k][0], it.pred_exprs[k][1] if v else _neg_op(it.pred_exprs[k][1])) for k, v in dec.items() if k in it.pred_exprs]
         if deficits_only:
             cons.append((R, "<"))
+        if inner_sel is not None:
+            # donors come from a selection made at the start of this pass; within the pass an entry changes only when it is visited
+            cons.append((D - Rat.const(Fraction(inner_sel[1]).limit_denominator(10**9)), inner_sel[0]))
+            cons.append((I - J, "!=")) if (outer_sel is not None and not _overlap(outer_sel, inner_sel)) else None
         if not possible(cons):
             continue
         nI, nJ = out.d[it.dkey(I, None)], out.d[it.dkey(J, None)]
